@@ -87,9 +87,12 @@ package objects
 
 // a removed application is no longer reported as allocating by the leaf or any ancestor
 //@ func (sq *Queue) RemoveApplication(app *Application)
-//@   props C11
+//@   props C11 C03
 //@   sweep
 //@   mode nopanic=off
+//@   at[pending] call objects.Queue.decPendingResource#1: assert arg0 == sq && (forall t Key :: rv(arg1, t) == rv(app.pending, t))
+//@   at[allocated] call objects.Queue.DecAllocatedResource#1: assert arg0 == sq && (forall t Key :: rv(arg1, t) == rv(app.allocatedResource, t))
+//@   at[placeholder] call objects.Queue.DecAllocatedResource#2: assert arg0 == sq && (forall t Key :: rv(arg1, t) == rv(app.allocatedPlaceholder, t))
 //@   ensures[untracked] old(app.ApplicationID in sq.applications) ==> (forall q *Queue :: anc(sq, q) ==> !q.allocatingAcceptedApps[app.ApplicationID])
 
 // same gate on the reserved path: stated from the property (room on every ancestor), implied by canRunApp's contract
